@@ -31,10 +31,10 @@ func cmdLive(args []string) int {
 		nHist, nOps = 80, 60
 		maxN = 2048
 		maxP = nil
-		for p := 1; p <= 64; p++ {
+		for p := 1; p <= 17; p++ {
 			maxP = append(maxP, p)
 		}
-		maxP = append(maxP, 128)
+		maxP = append(maxP, 31, 32, 33, 64, 128)
 	}
 	fx, err := NewFixture(ctx, nW, perW, false)
 	if err != nil {
@@ -189,13 +189,15 @@ func cmdLive(args []string) int {
 	twinSteps := run.steps
 
 	// (c) util.Scatter against the model's extents
-	var sb strings.Builder
-	sb.WriteString("From DV Require Import Corr.CheckScatter.\nDefinition cases : list scase := [\n")
+	var scLines []string
 	sc := 0
 	for _, p := range maxP {
 		old := runtime.GOMAXPROCS(p)
 		for n := 1; n <= maxN; n++ {
 			if cf.tier != "thorough" && n > 40 && n%7 != 0 && n != maxN {
+				continue
+			}
+			if cf.tier == "thorough" && n > 400 && n%5 != 0 && n%128 > 1 && n%128 < 127 && n != maxN {
 				continue
 			}
 			var mu sync.Mutex
@@ -226,17 +228,27 @@ func cmdLive(args []string) int {
 			for _, e := range seen {
 				items = append(items, fmt.Sprintf("(%d,%d)", e[0], e[1]))
 			}
-			if sc > 0 {
-				sb.WriteString(";\n")
-			}
 			sc++
-			fmt.Fprintf(&sb, " SC %d%%N %d %d [%s]", sc, n, p, strings.Join(items, ";"))
+			scLines = append(scLines, fmt.Sprintf(" SC %d%%N %d %d [%s]", sc, n, p, strings.Join(items, ";")))
 		}
 		runtime.GOMAXPROCS(old)
 	}
-	sb.WriteString("].\nDefinition M := Eval vm_compute in scatter_mismatches cases.\nPrint M.\n")
-	if err := os.WriteFile(filepath.Join(cf.out, "cases_C09_scatter.v"), []byte(sb.String()), 0o644); err != nil {
-		return 2
+	var scFiles []string
+	const scShard = 400
+	for sh := 0; sh*scShard < len(scLines); sh++ {
+		hi := (sh + 1) * scShard
+		if hi > len(scLines) {
+			hi = len(scLines)
+		}
+		var sb strings.Builder
+		sb.WriteString("From DV Require Import Corr.CheckScatter.\nDefinition cases : list scase := [\n")
+		sb.WriteString(strings.Join(scLines[sh*scShard:hi], ";\n"))
+		sb.WriteString("].\nDefinition M := Eval vm_compute in scatter_mismatches cases.\nPrint M.\n")
+		name := fmt.Sprintf("cases_C09_scatter_%d.v", sh)
+		if err := os.WriteFile(filepath.Join(cf.out, name), []byte(sb.String()), 0o644); err != nil {
+			return 2
+		}
+		scFiles = append(scFiles, name)
 	}
 	run.stats["scatter.cases"] = sc
 	run.stats["twin.pairs"] = twinCount
@@ -249,7 +261,7 @@ func cmdLive(args []string) int {
 	if err != nil {
 		return 2
 	}
-	files := append(append(files1, files2...), "cases_C09_scatter.v")
+	files := append(append(files1, files2...), scFiles...)
 	idx := map[string]string{}
 	distinct := map[string]bool{}
 	for _, l := range [][]StepRec{liveSteps, twinSteps} {
